@@ -106,7 +106,7 @@ func (p *rcProxy) WriteSnapshot(s *common.SnapshotWithTopologicalOrder, signers 
 
 type rcTxDef struct {
 	kind, ref0, outs, key int
-	inputs               [][2]int
+	inputs                [][2]int
 }
 
 type rcWorld struct {
@@ -1083,10 +1083,6 @@ func (g *rcGen) fill(k, a int) {
 	g.snapCount += k
 }
 
-// rcLongSizes are the tail lengths around the page size of the startup walk
-// (ReadSnapshotWithTransactionsSinceTopology batches of 500) and well beyond it.
-var rcLongSizes = []int{501, 499, 500, 1000}
-
 // rcGenLong: [a marked consensus operation] [A ordinary snapshots] one consensus snapshot whose
 // marker write is still outstanding, B ordinary snapshots of other chains, stop, restart; then
 // the marker write, stop, restart. With B > 500 the unrecorded snapshot is more than one page
@@ -1115,13 +1111,20 @@ func rcGenLong(r *Rand, a, b int) []string {
 }
 
 func rcGenCase(r *Rand, i int, tier string) []string {
-	// long histories: every size in thorough (cases 0..3 of every seed, the head distance A
-	// varied as well); quick runs the one just past the page size and one of the others
-	if tier == "thorough" && i < len(rcLongSizes) {
-		return rcGenLong(r, Pick(r, []int{0, 3, 499, 501}), rcLongSizes[i]+r.Intn(3)*(i/3)*100)
+	// long histories (A ordinary snapshots between the recorded marker and the unrecorded
+	// consensus snapshot, B after it): thorough runs every shape for every seed, quick the one
+	// just past the page size and one other shape
+	long := [][2]int{{r.Intn(4), 501}, {r.Intn(4), 499}, {r.Intn(4), 500}, {r.Intn(4), 1000 + r.Intn(3)*100},
+		{Pick(r, []int{501, 1001, 1200}), r.Intn(3)}, {Pick(r, []int{499, 500, 1001}), Pick(r, []int{501, 1001})}}
+	if tier == "thorough" && i < len(long) {
+		return rcGenLong(r, long[i][0], long[i][1])
 	}
 	if tier != "thorough" && i < 2 {
-		return rcGenLong(r, r.Intn(4), Pick(r, [][]int{{501}, {499, 500, 1000}}[i]))
+		k := 0
+		if i == 1 {
+			k = 1 + r.Intn(len(long)-1)
+		}
+		return rcGenLong(r, long[k][0], long[k][1])
 	}
 	num, den := 1, 4
 	steps := r.Range(3, 7)
